@@ -313,7 +313,7 @@ void target_run(void)
 	vk_reset();
 	vk_hooks.wait_entry = hook_wait_entry; vk_hooks.wait_block = hook_wait_block; vk_hooks.quiescent = hook_quiescent;
 	vk_hooks.wait_return = hook_wait_return; vk_hooks.sysfault = hook_sysfault;
-	vk_active = 1;
+	vk_active = 1; { extern int vlock_active; vlock_active = 1; }
 	iv_set_fatal_msg_handler(fatal_handler);
 	iv_init();
 	vz_log("method=%s", iv_poll_method_name());
